@@ -438,6 +438,7 @@ APH = "src/clikit/ui/help/application_help.py"
 CMH = "src/clikit/ui/help/command_help.py"
 
 MUTANTS["C13"] = [
+    M("F27-stale-strict-parse", "src/clikit/resolver/help_resolver.py", "            result = ResolveResult(result.command, result.raw_args)\n\n", "", expect="C13-R11"),
     M("f11-regression", ABH, '        description = option.description or ""\n', "        description = option.description\n", expect="C13-R1"),
     M("help-unnarrowed", CMH, "        if help:\n            self._render_description(layout, help)\n", "        self._render_description(layout, help)\n", expect="C13-R1"),
     M("hidden-test-removed-app", APH, "        if command.config.is_hidden():\n            return\n\n        description = command.config.description", "        description = command.config.description", expect="C13-R2"),
